@@ -70,6 +70,9 @@ func replayRecord(rec *ReplayRecord) (bool, string) {
 			src, _ = os.ReadFile(prev)
 		}
 		cnt := strings.Count(string(src), sp.Old)
+		if sp.All && cnt == 0 {
+			continue // nothing of this kind to redirect in this tree (e.g. no time.Since call left)
+		}
 		if cnt == 0 || (!sp.All && cnt != 1) {
 			return false, "replay patch does not apply to this tree: " + sp.File
 		}
